@@ -138,7 +138,7 @@ def main():
         "setup_cmd": "./check --setup",
         "hooks": {
             "guard": "--cfg tyme4rs_verif (memo reset/snapshot/poison probes) and --cfg tyme4rs_verif_loom (loom sync types); both rustc cfg flags, off by default",
-            "enable": "RUSTFLAGS='--cfg tyme4rs_verif' via /verif/mc/.cargo/config.toml (path dependency on /repo); '--cfg tyme4rs_verif --cfg tyme4rs_verif_loom' via /verif/mc-loom/.cargo/config.toml (#[path]-includes /repo/src/tyme/mod.rs)",
+            "enable": "RUSTFLAGS='--cfg tyme4rs_verif' via /verif/mc/.cargo/config.toml (path dependency on /repo); '--cfg tyme4rs_verif --cfg tyme4rs_verif_loom' via /verif/mc-loom/.cargo/config.toml (build.rs copies /repo/src/tyme into OUT_DIR rewriting every sync primitive to loom's; fallback feature 'plain' #[path]-includes /repo/src/tyme/mod.rs)",
             "baseline_off_cmd": "cd /repo && (cargo nextest run --workspace --no-fail-fast --test-threads 8 --offline || cargo test --workspace --no-fail-fast --offline)",
             "source_commits": HOOK_COMMITS,
             "add_only": True,
